@@ -329,6 +329,8 @@ def run(sess: Session):
                 sess.check(ob)
         except Unsupported as exc:
             sess.unsupported(f'C08:{part}', str(exc))
+    from contracts import addchecks as _ac
+    _ac.run_row_images(sess, PROP, only={'_insert_lexicon'})      # which dependencies count as installed
     try:
         for ob in coreflows.wordnet_init_obligations(PROP):
             sess.check(ob)
